@@ -9,6 +9,7 @@
 use ozharness::*;
 use sha2::Digest;
 #[allow(unused_imports)]
+use soroban_sdk::IntoVal as _;
 use soroban_sdk::MuxedAddress;
 use soroban_sdk::{contract, contractimpl, contracttype, xdr::ToXdr, Address, Bytes, BytesN, Env, TryFromVal, Val, Vec as SVec};
 use stellar_contract_utils::{
@@ -391,6 +392,44 @@ fn do_verify_idx(t: &mut Trace, l: &Lib, alg: Alg, root: &H32, leaf: &H32, index
     t.obs(&o);
 }
 
+/// a proof vector with ONE element that is not a `BytesN<32>` inserted at `pos` (`kind`: 0 a u32, 1 a 31-byte
+/// string, 2 a 33-byte string, 3 void): a host vector is type-checked element by element only when read, so such
+/// a value can be handed to every entry point that takes a `Vec<BytesN<32>>`
+fn do_verify_junk(t: &mut Trace, l: &Lib, alg: Alg, root: &H32, leaf: &H32, index: Option<u32>, proof: &[H32], pos: usize, kind: u32) {
+    let e = &l.e;
+    t.op(&format!(
+        "verifyj alg={} root={} leaf={} index={} proof={} pos={} junk={} exp=c:junk",
+        alg.name(), hex(root), hex(leaf), index.map(|i| i.to_string()).unwrap_or("-".into()), hexlist(proof), pos, kind
+    ));
+    let mut vals: SVec<Val> = SVec::new(e);
+    for (i, h) in proof.iter().enumerate() {
+        if i == pos {
+            vals.push_back(junk_val(e, kind));
+        }
+        vals.push_back(l.b32(h).into_val(e));
+    }
+    if pos >= proof.len() {
+        vals.push_back(junk_val(e, kind));
+    }
+    let pv: Val = vals.into_val(e);
+    let r = match index {
+        None => call(e, &l.addr, if alg == Alg::Sha { "verify_sha" } else { "verify_kec" }, args(e, [pv, v(e, l.b32(root)), v(e, l.b32(leaf))]), &[]),
+        Some(i) => call(e, &l.addr, if alg == Alg::Sha { "verify_idx_sha" } else { "verify_idx_kec" }, args(e, [pv, v(e, l.b32(root)), v(e, l.b32(leaf)), v(e, i)]), &[]),
+    };
+    let o = show_bool(e, r);
+    t.count(&format!("verifyj:{}", o.replace(' ', "_")));
+    t.obs(&o);
+}
+
+fn junk_val(e: &Env, kind: u32) -> Val {
+    match kind {
+        0 => 7u32.into_val(e),
+        1 => soroban_sdk::Bytes::from_slice(e, &[0u8; 31]).into_val(e),
+        2 => soroban_sdk::Bytes::from_slice(e, &[0u8; 33]).into_val(e),
+        _ => ().into_val(e),
+    }
+}
+
 fn do_pair(t: &mut Trace, l: &Lib, alg: Alg, sorted: bool, a: &H32, b: &H32) {
     t.op(&format!("pair alg={} mode={} a={} b={} want={}", alg.name(), if sorted { "sorted" } else { "plain" }, hex(a), hex(b), hex(&pair(alg, sorted, a, b))));
     let e = &l.e;
@@ -462,6 +501,10 @@ fn corruptions(t: &mut Trace, l: &Lib, rng: &mut Rng, alg: Alg, sorted: bool, ro
             run(t, &it.leaf, &it.proof[..k - 1], it.index, root, "c:trunc");
         }
         run(t, &it.leaf, &[], 0, root, "c:trunc");
+    }
+    // an honest proof extended by an element that is not a 32-byte string, at either end and in the middle
+    for (pos, kind) in [(0usize, 0u32), (k, 1), (k / 2, 3), (k, 2)] {
+        do_verify_junk(t, l, alg, root, &it.leaf, if sorted { None } else { Some(it.index.min(u32::MAX as u64) as u32) }, &it.proof, pos, kind);
     }
     let mut p = it.proof.clone();
     p.push(rand32(rng));
